@@ -128,6 +128,7 @@ type bias struct {
 	pCancel              int
 	pOddURL              int
 	pStall               int
+	pClockStep           int
 	pPoison              int
 	pPartial             int
 	pRespell             int
@@ -574,6 +575,10 @@ func (g *gen) op(b *bias, scn *Scenario) Op {
 	if g.chance(b.pCorrupt) {
 		o.Admin, o.AdminArg = "corrupt", g.IntN(100000)
 	}
+	if g.chance(b.pClockStep) {
+		// the wall clock is set back or forwards between two requests (seconds)
+		o.Admin, o.AdminArg = "clock-step", pick(g, -86400, -3600, -61, -5, -1, 1, 30, 3600)
+	}
 	return o
 }
 
@@ -872,6 +877,17 @@ var profiles = map[string]func(b *bias, g *gen){
 		b.pNoCache, b.pMustReval, b.pSWR, b.pVary = 25, 35, 30, 20
 		b.lifetimes = []int64{0, 1, 2, 60}
 		b.faultFree, b.storeFaults = false, 1
+	},
+	"oicstep": func(b *bias, g *gen) {
+		// C18 under a wall clock that is stepped between requests (one client, nothing in the background): a stored
+		// response may then look received in the future, or far older than it is - and still no only-if-cached
+		// request may reach the network
+		b.reqCCs = []string{"only-if-cached", "only-if-cached", "only-if-cached, max-stale", "only-if-cached, max-age=0", "only-if-cached, min-fresh=5"}
+		b.pReqCC = 60
+		b.pNoCache, b.pMustReval, b.pSWR, b.pVary, b.pCancel = 10, 25, 0, 15, 0
+		b.lifetimes = []int64{1, 2, 60, 3600}
+		b.clients, b.ops = [2]int{1, 1}, [2]int{4, 12}
+		b.pClockStep = 25
 	},
 	"crashy": func(b *bias, g *gen) {
 		// C15 (whole stack): write failures and kills while entries are stored, then a second incarnation reads
